@@ -66,7 +66,10 @@ class PolyDomain:
         self.defined = []         # var ids introduced by contracts, in order
         self.n = 0
         self.notes = []
+        self.explicit_solve_max = 3
         self.alg_atoms = {}       # var id -> integer p with var^2 = p  (sqrt of primes)
+        self.sq_atoms = {}        # var id -> Poly a with var^2 = a   (sqrt / abs atoms)
+        self.inv_atoms = {}       # var id -> Poly b with var * b = 1 (inverse atoms, b != 0 by A3)
 
     # ---- bookkeeping
     def fresh(self, prefix, desc=None, positive=False, nonneg=False):
@@ -209,9 +212,11 @@ class PolyDomain:
             w, wid = self.fresh("iv_", ("inv", x), positive=(v in self.pos))
             self.hyp(w * x - 1, f"inv({P.NAMES[v]})")
             self.nonzero.append(x)
+            self.inv_atoms[wid] = x
         else:
             w, wid = self.fresh("av_", ("abs", x), nonneg=True)
             self.hyp(w * w - x * x, f"abs({P.NAMES[v]})")
+            self.sq_atoms[wid] = x * x
         self.cache[key] = w
         return w
 
@@ -242,6 +247,7 @@ class PolyDomain:
                 w, wid = self.fresh("inv", ("inv", b), positive=(sc == "pos"))
                 self.hyp(w * b - 1, "inv")
                 self.nonzero.append(b)
+                self.inv_atoms[wid] = b
                 self.cache[key] = w
         return a * self.cache[key]
 
@@ -295,6 +301,7 @@ class PolyDomain:
             sc = self.sign_class(a)
             s, sid = self.fresh("sq", ("sqrt", a), positive=(sc == "pos"), nonneg=True)
             self.hyp(s * s - a, "sqrt")
+            self.sq_atoms[sid] = a
             if sc not in ("pos", "nonneg", "zero"):
                 self.nonneg_conds.append(a)
             self.cache[key] = s
@@ -325,6 +332,7 @@ class PolyDomain:
             else:
                 s, sid = self.fresh("ab", ("abs", a), nonneg=True)
                 self.hyp(s * s - a * a, "abs")
+                self.sq_atoms[sid] = a * a
                 self.cache[key] = s
         return self.cache[key]
 
@@ -337,6 +345,7 @@ class PolyDomain:
         if key not in self.cache:
             s, sid = self.fresh("sg", ("sign", a))
             self.hyp(s * s - 1, "sign^2")
+            self.sq_atoms[sid] = Poly.const(1)
             self.hyp(s * a - self.abs(a), "sign*x=|x|")
             self.nonzero.append(a)
             self.cache[key] = s
@@ -482,6 +491,21 @@ class PolyDomain:
                     Tm[i, j] = T[i, j] if ((i > j) if low else (i < j)) else Poly()
         if n == 1:
             return np.vectorize(lambda b: self.div(b, Tm[0, 0]), otypes=[object])(B)
+        if n <= self.explicit_solve_max and left_side:
+            # explicit substitution; each pivot contributes one inverse atom (A3: pivot != 0)
+            B2 = B.reshape(n, -1)
+            X = np.empty(B2.shape, dtype=object)
+            order = range(n) if low else range(n - 1, -1, -1)
+            for col in range(B2.shape[1]):
+                for i in order:
+                    acc = B2[i, col]
+                    js = range(i) if low else range(i + 1, n)
+                    for j in js:
+                        if Tm[i, j].t and X[j, col].t:
+                            acc = acc - Tm[i, j] * X[j, col]
+                    X[i, col] = self.div(acc, Tm[i, i])
+            self.notes.append(("tri_solve_explicit", f"n={n}", B.shape))
+            return X.reshape(B.shape)
         X, name = self._fresh_mat("X", B.shape, "tri_solve")
         E = (Tm.dot(X) - B) if left_side else (X.dot(Tm) - B)
         for idx in np.ndindex(*E.shape):
